@@ -22,6 +22,7 @@ import (
 
 	toml "github.com/pelletier/go-toml"
 	"github.com/zmap/zcrypto/x509"
+	zlint "github.com/zmap/zlint/v3"
 	"github.com/zmap/zlint/v3/lint"
 )
 
@@ -113,6 +114,7 @@ type corpusClassEntry struct {
 	Scope map[string]string `json:"scope,omitempty"`
 	Date  int64             `json:"date"`
 	Conf  []string          `json:"conf,omitempty"` // real configurable lints with a verdict (not NA/NE) on this object
+	Find  []string          `json:"find,omitempty"` // real lints with a finding (info or worse) on this object
 }
 
 var corpusClassMemo []corpusClassEntry
@@ -129,7 +131,7 @@ func corpusClassIndex() []corpusClassEntry {
 			fmt.Fprintf(&sb, "%s:%d:%d;", n, st.Size(), st.ModTime().UnixNano())
 		}
 	}
-	path := filepath.Join(verifRoot(), "work", "corpus-index2-"+shortHash(sb.String()+binHash())+".json")
+	path := filepath.Join(verifRoot(), "work", "corpus-index3-"+shortHash(sb.String()+binHash())+".json")
 	if b, err := os.ReadFile(path); err == nil {
 		var out []corpusClassEntry
 		if json.Unmarshal(b, &out) == nil && len(out) > 0 {
@@ -152,6 +154,7 @@ func corpusClassIndex() []corpusClassEntry {
 			e.Scope = scopeClasses(p.Cert)
 		}
 		e.Conf = verdictConfigurables(p)
+		e.Find = findingLints(p)
 		out = append(out, e)
 	}
 	b, _ := json.Marshal(out)
@@ -196,6 +199,31 @@ func verdictConfigurables(p *Parsed) (out []string) {
 			}
 		}
 	}
+	return out
+}
+
+// findingLints lists the real lints that report info or worse on the object
+// (empty configuration, full registry): which rarely taken paths an object reaches.
+func findingLints(p *Parsed) (out []string) {
+	defer func() { recover() }()
+	var rs *zlint.ResultSet
+	switch p.Kind {
+	case KCert:
+		rs = zlint.LintCertificate(p.Cert)
+	case KCRL:
+		rs = zlint.LintRevocationList(p.CRL)
+	case KOCSP:
+		rs = zlint.LintOcspResponse(p.OCSP)
+	}
+	if rs == nil {
+		return nil
+	}
+	for n, r := range rs.Results {
+		if r != nil && r.Status >= lint.Notice && !isProbeName(n) {
+			out = append(out, n)
+		}
+	}
+	sort.Strings(out)
 	return out
 }
 
